@@ -135,6 +135,7 @@ func variadicArg(c ssa.CallInstruction) ssa.Value {
 }
 
 func runC02(c *Ctx) {
+	c02P = c.P
 	c02R1R4(c)
 	c02R2(c)
 	c02R3(c)
@@ -620,7 +621,9 @@ func c02Monitored(call ssa.CallInstruction) (bool, []string) {
 // c02CallbackTolerance: the sentinels a callback may return to mean "no
 // failure", by the struct field the callback was loaded from.
 var c02CallbackTolerance = map[string][]string{
-	"field:~.CopyGraphOptions.PreCopy": {"~.SkipNode"},
+	"field:~.CopyGraphOptions.PreCopy":           {"~.SkipNode"},
+	"(~/content.Pusher).Push":                    {"~/errdef.ErrAlreadyExists"},
+	"(~/registry.ReferencePusher).PushReference": {"~/errdef.ErrAlreadyExists"},
 }
 
 // c02R3Funcs: the functions whose calls are monitored — everything declared
@@ -778,9 +781,10 @@ func c02Go(c *Ctx) {
 		// the result of a closure factory, a method value): the task function's
 		// error is returned to the errgroup (and recorded as the cancel cause,
 		// there or after eg.Wait()); lr.End() on every exit
-		egGoCalls := CallsTo(G, "(*golang.org/x/sync/errgroup.Group).Go")
+		egGo := c02FindCalls(G, "(*golang.org/x/sync/errgroup.Group).Go", nil, 0) // in G or a helper it calls (spawn)
 		var bodies []*ssa.Function
-		for _, g := range egGoCalls {
+		for _, eg := range egGo {
+			g := eg.call
 			if args := g.Common().Args; len(args) == 2 {
 				for _, t := range c02FuncTargets(args[1], 0) {
 					if len(t.Fn.Blocks) > 0 {
@@ -824,10 +828,21 @@ func c02Go(c *Ctx) {
 		}
 		// a successful region.Start() (direct, or inside a helper that returns nil
 		// only after it) precedes eg.Go
-		okEdges := c02AcquireEdges(G)
-		okStart := len(okEdges) > 0 && len(egGoCalls) > 0
-		for _, g := range egGoCalls {
-			if !MustPass(g.(ssa.Instruction), newCut().Edges(okEdges...)) {
+		okStart := len(egGo) > 0
+		for _, eg := range egGo {
+			// in the function that spawns, or at the call (in the caller) that leads there
+			ok := false
+			at := eg.call.(ssa.Instruction)
+			for i := 0; ; i++ {
+				if es := c02AcquireEdges(at.Parent()); len(es) > 0 && MustPass(at, newCut().Edges(es...)) {
+					ok = true
+				}
+				if ok || i >= len(eg.chain) {
+					break
+				}
+				at = eg.chain[i].(ssa.Instruction)
+			}
+			if !ok {
 				okStart = false
 			}
 		}
